@@ -12,6 +12,8 @@ import Fir.Model.Resample
 import Fir.Proofs.FixedLemmas
 import Fir.Proofs.IdealLemmas
 import Fir.Proofs.ImageLemmas
+import Fir.Proofs.TwoPassLemmas
+import Fir.Proofs.IdealFilterLemmas
 
 namespace Fir.C10
 open Fir
@@ -140,6 +142,88 @@ theorem vertPass_uniform_u16 (src : Img) (dstW dstH offset : Nat) (c : Coeffs) (
     (x y ch : Nat) (hx : x < dstW) (hy : y < dstH) (hc : ch < src.n) :
     (vertPass .u16 src dstW dstH offset c).get x y ch = v :=
   Fir.Proofs.vertPass_uniform_u16 src dstW dstH offset c v hv0 hv hp1 hp hread hq x y ch hx hy hc
+
+/-! ### both passes of `do_convolution` composed -/
+
+open Fir.Proofs in
+/-- 8-bit order (vertical, then horizontal over the temporary image of width `tempW` that starts at source
+    column `xFirst`): if every source sample read is `v`, every window of both passes satisfies the
+    `QuantOK` inequalities and every horizontal window lies inside the temporary image, the result is `v` -/
+theorem twoPass_uniform_u8 (src : Img) (dstW dstH tempW xFirst : Nat) (vc hc : Coeffs) (v : Int)
+    (hv0 : 0 ≤ v) (hv : v ≤ 255)
+    (hpV1 : 1 ≤ (qOf .u8 vc).precision) (hpV : (qOf .u8 vc).precision ≤ 22)
+    (hpH1 : 1 ≤ (qOf .u8 hc).precision) (hpH : (qOf .u8 hc).precision ≤ 22)
+    (hreadV : ∀ x y ch, x < tempW → y < dstH → ch < src.n → ∀ s ∈ vWindow .u8 src xFirst vc x y ch, s = v)
+    (hqV : ∀ y, y < dstH →
+      -(2 ^ ((qOf .u8 vc).precision - 1) : Int) ≤ v * ((chunkAt .u8 vc y).2.toList.sum - 2 ^ (qOf .u8 vc).precision) ∧
+      v * ((chunkAt .u8 vc y).2.toList.sum - 2 ^ (qOf .u8 vc).precision) < 2 ^ ((qOf .u8 vc).precision - 1))
+    (hfit : ∀ x, x < dstW → (chunkAt .u8 hc x).1 + (chunkAt .u8 hc x).2.size ≤ tempW)
+    (hqH : ∀ x, x < dstW →
+      -(2 ^ ((qOf .u8 hc).precision - 1) : Int) ≤ v * ((chunkAt .u8 hc x).2.toList.sum - 2 ^ (qOf .u8 hc).precision) ∧
+      v * ((chunkAt .u8 hc x).2.toList.sum - 2 ^ (qOf .u8 hc).precision) < 2 ^ ((qOf .u8 hc).precision - 1))
+    (x y ch : Nat) (hx : x < dstW) (hy : y < dstH) (hc' : ch < src.n) :
+    (horizPass .u8 (vertPass .u8 src tempW dstH xFirst vc) dstW dstH 0 hc).get x y ch = v :=
+  Fir.Proofs.twoPass_uniform_u8 src dstW dstH tempW xFirst vc hc v hv0 hv hpV1 hpV hpH1 hpH hreadV hqV hfit hqH x y ch hx hy hc'
+
+open Fir.Proofs in
+/-- 16-bit order (horizontal into a temporary image of height `tempH` that starts at source row `yFirst`,
+    then vertical) -/
+theorem twoPass_uniform_u16 (src : Img) (dstW dstH tempH yFirst : Nat) (hc vc : Coeffs) (v : Int)
+    (hv0 : 0 ≤ v) (hv : v ≤ 65535)
+    (hpH1 : 1 ≤ (qOf .u16 hc).precision) (hpH : (qOf .u16 hc).precision ≤ 46)
+    (hpV1 : 1 ≤ (qOf .u16 vc).precision) (hpV : (qOf .u16 vc).precision ≤ 46)
+    (hreadH : ∀ x y ch, x < dstW → y < tempH → ch < src.n → ∀ s ∈ hWindow .u16 src yFirst hc x y ch, s = v)
+    (hqH : ∀ x, x < dstW →
+      -(2 ^ ((qOf .u16 hc).precision - 1) : Int) ≤ v * ((chunkAt .u16 hc x).2.toList.sum - 2 ^ (qOf .u16 hc).precision) ∧
+      v * ((chunkAt .u16 hc x).2.toList.sum - 2 ^ (qOf .u16 hc).precision) < 2 ^ ((qOf .u16 hc).precision - 1))
+    (hfit : ∀ y, y < dstH → (chunkAt .u16 vc y).1 + (chunkAt .u16 vc y).2.size ≤ tempH)
+    (hqV : ∀ y, y < dstH →
+      -(2 ^ ((qOf .u16 vc).precision - 1) : Int) ≤ v * ((chunkAt .u16 vc y).2.toList.sum - 2 ^ (qOf .u16 vc).precision) ∧
+      v * ((chunkAt .u16 vc y).2.toList.sum - 2 ^ (qOf .u16 vc).precision) < 2 ^ ((qOf .u16 vc).precision - 1))
+    (x y ch : Nat) (hx : x < dstW) (hy : y < dstH) (hc' : ch < src.n) :
+    (vertPass .u16 (horizPass .u16 src dstW tempH yFirst hc) dstW dstH 0 vc).get x y ch = v :=
+  Fir.Proofs.twoPass_uniform_u16 src dstW dstH tempH yFirst hc vc v hv0 hv hpH1 hpH hpV1 hpV hreadH hqH hfit hqV x y ch hx hy hc'
+
+/-! ### the ideal weights (`Fir.Spec.IdealFilter`, exact rationals): a partition of unity.
+    The correspondence check compares the implementation's f64 weights with `Fir.Spec.idealWeights` (within 1e-9, every
+    window of every generated geometry, polynomial kernels) and checks that they are the numbers the integer
+    coefficients are roundings of (hypothesis `hq` above, exactly, all kernels). -/
+
+open Fir.Spec in
+theorem normalise_sum_one (ws : List ℚ) (h : ws.sum ≠ 0) : (normalise ws).sum = 1 :=
+  Fir.Proofs.normalise_sum_one ws h
+
+open Fir.Spec in
+/-- C10 (ideal): the ideal weights of a window whose kernel values do not cancel sum to exactly one -/
+theorem idealWeights_sum_one (inSize : Nat) (in0 in1 : ℚ) (outSize : Nat) (flt : QFilter) (adaptive : Bool) (o : Nat)
+    (h : (idealRaw inSize in0 in1 outSize flt adaptive o).2.sum ≠ 0) :
+    (idealWeights inSize in0 in1 outSize flt adaptive o).2.sum = 1 :=
+  Fir.Proofs.idealWeights_sum_one inSize in0 in1 outSize flt adaptive o h
+
+open Fir.Spec in
+/-- partition of unity of the kernels themselves on one period: for 0 ≤ t ≤ 1 the integer translates sum to one -/
+theorem qBilinear_partition (t : ℚ) (h0 : 0 ≤ t) (h1 : t ≤ 1) : qBilinear t + qBilinear (t - 1) = 1 :=
+  Fir.Proofs.qBilinear_partition t h0 h1
+
+open Fir.Spec in
+theorem qCatmull_partition (t : ℚ) (h0 : 0 ≤ t) (h1 : t ≤ 1) :
+    qCatmull (t + 1) + qCatmull t + qCatmull (t - 1) + qCatmull (t - 2) = 1 :=
+  Fir.Proofs.qCatmull_partition t h0 h1
+
+open Fir.Spec in
+theorem qMitchell_partition (t : ℚ) (h0 : 0 ≤ t) (h1 : t ≤ 1) :
+    qMitchell (t + 1) + qMitchell t + qMitchell (t - 1) + qMitchell (t - 2) = 1 :=
+  Fir.Proofs.qMitchell_partition t h0 h1
+
+open Fir.Spec in
+/-- the interpolating kernels take the value 1 at 0 and 0 at the other integers of their support;
+    Mitchell is smoothing: 8/9 at 0 and 1/18 at ±1 (so integer samples still sum to one) -/
+theorem qCatmull_at_integers : qCatmull 0 = 1 ∧ qCatmull 1 = 0 ∧ qCatmull 2 = 0 :=
+  Fir.Proofs.qCatmull_at_integers 
+
+open Fir.Spec in
+theorem qMitchell_at_integers : qMitchell 0 = 8 / 9 ∧ qMitchell 1 = 1 / 18 ∧ qMitchell 2 = 0 :=
+  Fir.Proofs.qMitchell_at_integers 
 
 /-! ### non-vacuity -/
 example : QuantOK [4096, 8192, 4096] 14 255 := by decide
